@@ -260,6 +260,19 @@ Proof.
   - dmatch; cbn [fst]; st_simpl; intros H; left; split; try exact H; intros; discriminate.
   - dmatch; cbn [fst]; st_simpl; intros H; left; split; try exact H; intros; discriminate.
   - dmatch; cbn [fst]; st_simpl; intros H; left; split; try exact H; intros; discriminate.
+  - (* EOpenFull *)
+    cbn [ka_activity_of]. unfold on_open_full. destruct (find_ctx p (s_ctxs s)) as [cx|] eqn:F;
+      [|cbn [fst]; intros H; left; split; [exact H | intros; discriminate]].
+    pose proof (find_ctx_peer _ _ _ F) as PE.
+    destruct (h_act (c_prim cx) || (0 <? strong s (h_id (c_prim cx)))); cbn [fst andb];
+      [|intros H; left; split; [exact H | intros; discriminate]].
+    st_simpl. destruct (s_ka s); st_simpl; [|intros H; left; split; [exact H | intros; discriminate]].
+    rewrite activity_ctxs. st_simpl. unfold handle_active. rewrite find_set_ctx. cbn [c_peer].
+    destruct (p =? fst k) eqn:E; [|intros H; left; split; [exact H | intros; discriminate]].
+    apply N.eqb_eq in E. rewrite <- E, F. unfold cx_act. cbn [c_prim c_sec h_id h_act].
+    destruct (h_id (c_prim cx) =? snd k) eqn:E1.
+    + intros _. right. apply N.eqb_eq in E1. destruct k; cbn [fst snd] in *; subst; reflexivity.
+    + intros H; left; split; [exact H | intros; discriminate].
 Qed.
 
 Lemma act_mid e s dt i :
